@@ -104,6 +104,10 @@ type askRes struct {
 func ReplayLocal(base int, evs []LEv, rnd *rand.Rand) ([]LLine, error) {
 	inner := &fakeMember{member: map[string][]string{}, started: make(chan string, 16), acks: make(chan struct{}, 16), release: map[string][]chan bool{}, ProviderData: &providers.ProviderData{}}
 	gcache := providers.NewGroupCache(inner, 0, nil, nil)
+	// the store is wrapped by a recorder of the keys it is given: an entry can then be made to expire whatever the
+	// key's encoding and whatever the store is made of
+	rec := &keyRecorder{keys: map[groups.CacheKey]bool{}}
+	gcache.VerifWrapCache(func(c providers.Cache) providers.Cache { rec.Cache = c; return rec })
 	blank := func(ev string, n int) LLine { return LLine{Ev: ev, Case: n, GS: []string{}, Ans: []string{}} }
 	lines := []LLine{blank("reset", base)}
 	pending := map[string]chan askRes{}
@@ -212,25 +216,23 @@ func ReplayLocal(base int, evs []LEv, rnd *rand.Rand) ([]LLine, error) {
 			// the entry for this user and this set of groups expires - whatever the cache's key looks like: the keys it
 			// holds are listed, and the one that names this user and exactly these groups is purged
 			purged := false
-			if lc, ok := gcache.VerifCache().(*groups.LocalCache); ok {
-				for _, k := range lc.VerifKeys() {
-					if k.Email != email(e.U) {
-						continue
+			for _, k := range rec.list() {
+				if k.Email != email(e.U) {
+					continue
+				}
+				same := true
+				for _, g := range allGroups {
+					if strings.Contains(k.AllowedGroups, g) != contains(G, g) {
+						same = false
 					}
-					same := true
-					for _, g := range allGroups {
-						if strings.Contains(k.AllowedGroups, g) != contains(G, g) {
-							same = false
-						}
-					}
-					if same {
-						lc.Purge(k)
-						purged = true
-					}
+				}
+				if same {
+					rec.Purge(k)
+					purged = true
 				}
 			}
 			if !purged {
-				gcache.VerifCache().Purge(groups.CacheKey{Email: email(e.U), AllowedGroups: strings.Join(sorted(G), ",")})
+				rec.Purge(groups.CacheKey{Email: email(e.U), AllowedGroups: strings.Join(sorted(G), ",")})
 			}
 		}
 		lines = append(lines, ln)
@@ -300,4 +302,35 @@ func contains(xs []string, x string) bool {
 		}
 	}
 	return false
+}
+
+// keyRecorder wraps the group cache's store and remembers the keys it was given.
+type keyRecorder struct {
+	providers.Cache
+	mu   sync.Mutex
+	keys map[groups.CacheKey]bool
+}
+
+func (k *keyRecorder) Set(key groups.CacheKey, val groups.CacheEntry) {
+	k.mu.Lock()
+	k.keys[key] = true
+	k.mu.Unlock()
+	k.Cache.Set(key, val)
+}
+
+func (k *keyRecorder) Purge(key groups.CacheKey) {
+	k.mu.Lock()
+	delete(k.keys, key)
+	k.mu.Unlock()
+	k.Cache.Purge(key)
+}
+
+func (k *keyRecorder) list() []groups.CacheKey {
+	k.mu.Lock()
+	defer k.mu.Unlock()
+	out := make([]groups.CacheKey, 0, len(k.keys))
+	for key := range k.keys {
+		out = append(out, key)
+	}
+	return out
 }
